@@ -128,7 +128,24 @@ func (x *Exec) call(fr *Frame, st *State, c *ssa.CallCommon, instr ssa.Instructi
 	}
 	x.atSite(fr, st, "before:"+site, -1, av, at)
 	var res Val
+	pureHere := false
+	if fr.ct != nil && fr.inlineTag == "" {
+		for k, a := range fr.ct.Ats {
+			if a.Site == site && a.Kind == "pure" {
+				pureHere = true
+				fr.atUsed()[k] = true
+				x.vc.usedAssumed[fmt.Sprintf("call %s in %s assumed to have no visible side effects: %s", site, fr.unit, a.Clause.Text)] = true
+			}
+		}
+	}
 	switch {
+	case pureHere:
+		x.bumpAlloc(st)
+		if resT != nil {
+			if tup, ok := resT.(*types.Tuple); !ok || tup.Len() > 0 {
+				res = x.freshTyped(st, "ret_"+name, resT)
+			}
+		}
 	case callee != nil && ((ct != nil && ct.Inline) || (ct == nil && x.eng.isInlineCandidate(callee) && fr.depth < 3)):
 		var bind []Val
 		if clo != nil {
@@ -440,6 +457,10 @@ func (x *Exec) applyContract(fr *Frame, st *State, ct *FuncContract, callee *ssa
 func (x *Exec) havocLvalue(fr *Frame, st, pre *State, ct *FuncContract, mk func(cur, old *State) *EvalCtx, m string) {
 	vc := x.vc
 	m = strings.TrimSpace(m)
+	if m == "external" {
+		vc.havocExternal(st)
+		return
+	}
 	// ghost field: name(expr)
 	if i := strings.Index(m, "("); i > 0 && strings.HasSuffix(m, ")") {
 		name := strings.TrimSpace(m[:i])
@@ -572,6 +593,15 @@ func (c *EvalCtx) lvalue(m string) lval {
 // modClauseKeys: static heap keys touched by a modifies item (for loop havoc)
 func (e *Engine) modClauseKeys(vc *VC, ct *FuncContract, callee *ssa.Function, c *ssa.CallCommon, m string) (keys []string, ghost string, err error) {
 	m = strings.TrimSpace(m)
+	if m == "external" {
+		var ks []string
+		for k := range vc.heapNames {
+			if isExternalKey(k) {
+				ks = append(ks, k)
+			}
+		}
+		return ks, "", nil
+	}
 	if i := strings.Index(m, "("); i > 0 && strings.HasSuffix(m, ")") {
 		name := strings.TrimSpace(m[:i])
 		if srt, ok := e.ghostFields[name]; ok {
@@ -824,13 +854,23 @@ func (x *Exec) copyOp(fr *Frame, st *State, c *ssa.CallCommon, args []Val) Val {
 		st.heap[k] = fmt.Sprintf("(store %s (s-arr %s) %s)", E, d, vc.freshConst("copy_str", fmt.Sprintf("(Array Int %s)", esort)))
 		return Val{T: n}
 	}
-	n := vc.define("copy_n", "Int", fmt.Sprintf("(ite (<= (s-len %s) (s-len %s)) (s-len %s) (s-len %s))", d, s, d, s))
+	n := vc.freshConst("copy_n", "Int")
+	vc.assume("true", fmt.Sprintf("(= %s (ite (<= (s-len %s) (s-len %s)) (s-len %s) (s-len %s)))", n, d, s, d, s))
+	// declared constants (not macros): they occur inside quantifier patterns
+	od := vc.freshConst("copy_od", "Int")
+	os := vc.freshConst("copy_os", "Int")
+	vc.assume("true", fmt.Sprintf("(and (= %s (s-off %s)) (= %s (s-off %s)))", od, d, os, s))
 	Ad := fmt.Sprintf("(select %s (s-arr %s))", E, d)
 	As := fmt.Sprintf("(select %s (s-arr %s))", E, s)
 	A := vc.freshConst("copy_dst", fmt.Sprintf("(Array Int %s)", esort))
 	q := vc.fresh("j")
-	vc.assume(st.pc, fmt.Sprintf("(forall ((%s Int)) (! (= (select %s %s) (ite (and (<= (s-off %s) %s) (< %s (+ (s-off %s) %s))) (select %s (+ (s-off %s) (- %s (s-off %s)))) (select %s %s))) :pattern ((select %s %s))))",
-		q, A, q, d, q, q, d, n, As, s, q, d, Ad, q, A, q))
+	// copied part, relative to the destination's offset (so that a shift
+	// inside one block instantiates invariants stated over that block)
+	vc.assume(st.pc, fmt.Sprintf("(forall ((%s Int)) (! (=> (and (<= 0 %s) (< %s %s)) (= (select %s (eidx %s %s)) (select %s (eidx %s (+ %s (- %s %s)))))) :pattern ((select %s (eidx %s %s)))))",
+		q, q, q, n, A, od, q, As, od, q, os, od, A, od, q))
+	// everything else keeps its value
+	vc.assume(st.pc, fmt.Sprintf("(forall ((%s Int)) (! (=> (or (< %s %s) (>= %s (+ %s %s))) (= (select %s %s) (select %s %s))) :pattern ((select %s %s))))",
+		q, q, od, q, od, n, A, q, Ad, q, A, q))
 	st.heap[k] = vc.freshDef("h_copy", vc.heapSorts[k], fmt.Sprintf("(store %s (s-arr %s) %s)", E, d, A))
 	return Val{T: n}
 }
@@ -929,7 +969,7 @@ func (x *Exec) ownCtx(fr *Frame, st *State, body bool) *EvalCtx {
 		pv := fr.regs[p]
 		b := &binding{val: pv, typ: p.Type(), oldv: &pv}
 		if body {
-			if a, ok := fr.names[p.Name()].(*ssa.Alloc); ok {
+			if a, ok := fr.names[p.Name()].(*ssa.Alloc); ok && fr.reassigned(a) {
 				if lv, has := fr.regs[a]; has && lv.Loc != nil {
 					b = &binding{loc: lv.Loc, typ: p.Type(), oldv: &pv}
 				}
@@ -964,6 +1004,49 @@ func (x *Exec) ownCtx(fr *Frame, st *State, body bool) *EvalCtx {
 	}
 	x.addGhostVars(ctx, fr, st)
 	return ctx
+}
+
+// reassigned: the spilled parameter cell is written after the initial spill.
+func (fr *Frame) reassigned(a *ssa.Alloc) bool {
+	n := 0
+	for _, b := range fr.fn.Blocks {
+		for _, in := range b.Instrs {
+			if s, ok := in.(*ssa.Store); ok {
+				root := s.Addr
+				for {
+					if fa, ok := root.(*ssa.FieldAddr); ok {
+						root = fa.X
+						continue
+					}
+					if ia, ok := root.(*ssa.IndexAddr); ok {
+						root = ia.X
+						continue
+					}
+					break
+				}
+				if root == ssa.Value(a) {
+					n++
+				}
+			}
+		}
+	}
+	// captured parameters may also be written by closures; be conservative
+	if a.Heap && n <= 1 {
+		for _, af := range fr.fn.AnonFuncs {
+			for _, fv := range af.FreeVars {
+				if fv.Name() == a.Comment {
+					for _, b := range af.Blocks {
+						for _, in := range b.Instrs {
+							if s, ok := in.(*ssa.Store); ok && s.Addr == ssa.Value(fv) {
+								n++
+							}
+						}
+					}
+				}
+			}
+		}
+	}
+	return n > 1
 }
 
 func (x *Exec) evalClauseInt(fr *Frame, st *State, cl Clause, extra map[string]Val) string {
@@ -1027,6 +1110,7 @@ func (x *Exec) atSite(fr *Frame, st *State, kind string, ord int, vals map[strin
 			st.ghost["local:"+g] = x.vc.define("ghost_"+g, srt, t)
 		case "use":
 			x.useLemma(fr, st, at.Clause)
+		case "pure":
 		default:
 			x.eng.fatalf("%s: unknown at-kind %q", at.Clause.Src, at.Kind)
 		}
@@ -1040,6 +1124,8 @@ func (fr *Frame) atUsed() map[int]bool {
 	return fr.atSeen
 }
 
+func (x *Exec) declPsumIf() { x.declPsum() }
+
 // useLemma: "lemmaName(args)" — assert the lemma's preconditions, assume its postconditions.
 func (x *Exec) useLemma(fr *Frame, st *State, cl Clause) {
 	i := strings.Index(cl.Text, "(")
@@ -1049,6 +1135,23 @@ func (x *Exec) useLemma(fr *Frame, st *State, cl Clause) {
 	}
 	name := strings.TrimSpace(cl.Text[:i])
 	argTexts := splitTop(cl.Text[i+1:j], ',')
+	if name == "psumStep" {
+		// built-in: one instance of the defining equation of psum
+		if len(argTexts) != 2 {
+			x.eng.fatalf("%s: psumStep(f, k)", cl.Src)
+		}
+		ctx := x.ownCtx(fr, st, true)
+		ctx.src = cl.Src
+		for n, v := range x.iterVars(fr, st, nil) {
+			ctx.vars[n] = &binding{val: v, typ: types.Typ[types.Int]}
+			ctx.order = append(ctx.order, scopeVar{n, types.Typ[types.Int]})
+		}
+		f, _ := ctx.evalText(argTexts[0])
+		k, _ := ctx.evalText(argTexts[1])
+		x.declPsumIf()
+		x.vc.assume(st.pc, fmt.Sprintf("(=> (> %s 0) (= (psum %s %s) (+ (psum %s (- %s 1)) (apply1 %s (- %s 1)))))", k, f, k, f, k, f, k))
+		return
+	}
 	pkg := fr.ct.PkgPath
 	lct := x.eng.db.Funcs[pkg+" "+name]
 	lfn := x.eng.funcByKey(pkg, name)
